@@ -51,11 +51,12 @@ ASSUMPTIONS = [
 ]
 BOUNDS = {
     "quick": "index maps: 1..4 variables of 1..5 values (780 shapes, all indices); distributions: 1..4 variables of "
-             "1..4 values (340 shapes) x 4 tensors; ensembles: Q1, Q3, instrument sequences of length 1 and 2 over 13 "
-             "instruments x all alphabet states x 2 POVMs; validate ladder 4 eps x lengths 1..5",
-    "thorough": "index maps: 1..5 variables of 1..6 values (9330 shapes); distributions: 1..4 variables of 1..5 values "
-                "(780 shapes) and 5 variables of 1..3 values (243 shapes) x 4 tensors; ensembles: Q1, Q3, Q2 length 1 "
-                "and 2, Q1 length 3",
+             "1..5 values (780 shapes) x 4 tensors, all ordered retained subsets, all conditioned subsets x assignments; "
+             "ensembles: 1 qubit and 1 qutrit, instrument sequences of length 1 and 2 over 13 instruments (2..4 outcomes, "
+             "4 also as 2x2) x all alphabet states x 2 POVMs; validate ladder 4 eps x lengths 1..5",
+    "thorough": "index maps: 1..5 variables of 1..6 values and 6 variables of 1..4 values (13426 shapes); distributions: "
+                "1..4 variables of 1..6 values (1554 shapes) and 5 variables of 1..4 values (1024 shapes) x 4 tensors; "
+                "ensembles: 1 qubit, 1 qutrit, 2 qubits length 1 and 2; 1 qubit and 1 qutrit length 3",
 }
 EXHAUSTIVE = {"quick": True, "thorough": True}
 CASE_TIMEOUT = 600
@@ -122,29 +123,31 @@ def families(tier, seed):
     fams = []
     if tier == "quick":
         idx = [{"nvars": k, "first": f, "vmax": 5} for k in range(1, 5) for f in range(1, 6)]
-        dshapes = all_shapes(4, 4)
+        dshapes = all_shapes(4, 5)
+        ens_sys, ens3 = ["Q1", "Q3"], []
     else:
         idx = [{"nvars": k, "first": f, "vmax": 6} for k in range(1, 5) for f in range(1, 7)]
         idx += [{"nvars": 5, "first": f, "second": s, "vmax": 6} for f in range(1, 7) for s in range(1, 7)]
-        dshapes = all_shapes(4, 5) + all_shapes(5, 3, kmin=5)
+        idx += [{"nvars": 6, "first": f, "second": s, "vmax": 4} for f in range(1, 5) for s in range(1, 5)]
+        dshapes = all_shapes(4, 6) + all_shapes(5, 4, kmin=5)
+        ens_sys, ens3 = ["Q1", "Q3", "Q2"], ["Q1", "Q3"]
     fams.append(("index_maps", idx))
     fams.append(("distributions", [{"shape": list(s), "kind": kd} for s in dshapes for kd in KINDS]))
     fams.append(("validate", [{"eps": e, "n": n} for e in ("none", "1e-8", "1e-4", "1e-12") for n in range(1, 6)]))
     ens = []
-    systems = ["Q1", "Q3"] if tier == "quick" else ["Q1", "Q3", "Q2"]
-    for tag in systems:
+    for tag in ens_sys:
         names = instrument_names(tag)
         for a in names:
             ens.append({"sys": tag, "seq": [a]})
         for a in names:
             for b in names:
                 ens.append({"sys": tag, "seq": [a, b]})
-    if tier != "quick":
-        names = instrument_names("Q1")
+    for tag in ens3:
+        names = instrument_names(tag)
         for a in names:
             for b in names:
                 for c in names:
-                    ens.append({"sys": "Q1", "seq": [a, b, c]})
+                    ens.append({"sys": tag, "seq": [a, b, c]})
     fams.append(("ensembles", ens))
     return fams
 
@@ -829,6 +832,8 @@ def ex_ensemble(p, seed):
             continue
         hs.add(lib_flat(ens.prob_dist))
         cands = [o for o, sh in (("time", time_shape), ("reverse", rev_shape)) if sh == got_shape]
+        if L == 1:
+            cands = ["time"]
         okP, okS, detail = [], [], {}
         for order in cands:
             pgood = sgood = True
